@@ -132,6 +132,7 @@ STUBS = {
     "same_name_as_alias": "from shapes import Sq\n\ndef f(a: Sq) -> None: ...\n",
     "typed_dict": "from mypy_extensions import TypedDict\n\n\nclass ATypedDict__RENAME_ME__(TypedDict):\n    x: int\n\n\ndef f(a: 'ATypedDict__RENAME_ME__') -> int: ...\n",
     "already_imported": "from shapes import Sq\nimport sys\n\ndef f(a: Sq) -> None: ...\n",
+    "only_known": "from typing import List\n\ndef f(a: List[int]) -> None: ...\n",  # brings no new import at all
     "typing_prefixed_module": "from typing_extra import Thing\nfrom geometry import Point\n\ndef f(a: Thing) -> Point: ...\n",
 }
 STUB_NAMES = tuple(STUBS)
@@ -164,13 +165,59 @@ def _annotated(src_name, stub_name):
     return stub_module, source_module, annotated
 
 
+class _Untraced:
+    """Suspends the symbolic engine's tracing (when there is one) around third-party work."""
+
+    def __enter__(self):
+        self._cm = None
+        if "crosshair" in sys.modules:
+            from engine import verdicts as _V
+
+            if _V.UNDER_ENGINE:
+                from crosshair.tracers import NoTracing
+
+                self._cm = NoTracing()
+                self._cm.__enter__()
+        return self
+
+    def __exit__(self, *a):
+        if self._cm is not None:
+            self._cm.__exit__(*a)
+        return False
+
+
+class _NativeApply:
+    """Stands in for libcst's ApplyTypeAnnotationsVisitor inside monkeytype.cli: the same visitor, run with the engine's
+    tracing suspended (its ~150 s per path under the engine is third-party work, not MonkeyType's)."""
+
+    store_stub_in_context = staticmethod(ApplyTypeAnnotationsVisitor.store_stub_in_context)
+
+    def __init__(self, context):
+        self._context = context
+
+    def transform_module(self, module):
+        with _Untraced():
+            return ApplyTypeAnnotationsVisitor(self._context).transform_module(module)
+
+
+def _native_parse(text):
+    with _Untraced():
+        return libcst.parse_module(text)
+
+
 def confine_case(src_name, stub_name):
-    stub_module, source_module, annotated = _annotated(src_name, stub_name)
-    items = get_newly_imported_items(stub_module, source_module)
-    ctx = CodemodContext()
-    MoveImportsToTypeCheckingBlockVisitor.store_imports_in_context(ctx, items)
-    result = MoveImportsToTypeCheckingBlockVisitor(ctx).transform_module(annotated)
-    return annotated.code, result.code, items
+    """The REAL cli.apply_stub_using_libcst(stub, source, overwrite=False, confine=True): MonkeyType's glue (which flags it
+    hands to libcst, get_newly_imported_items, the confinement visitor) runs under the engine; libcst's parser and its
+    annotation visitor run untraced."""
+    import monkeytype.cli as CLI
+
+    saved = CLI.ApplyTypeAnnotationsVisitor, CLI.parse_module
+    CLI.ApplyTypeAnnotationsVisitor, CLI.parse_module = _NativeApply, _native_parse
+    try:
+        code = CLI.apply_stub_using_libcst(STUBS[stub_name], SOURCES[src_name], False, True)
+    finally:
+        CLI.ApplyTypeAnnotationsVisitor, CLI.parse_module = saved
+    return None, code, None
 
 
 def judge(src_name, stub_name, annotated_code, code, items):
@@ -233,7 +280,7 @@ def confine_body(t, pairs=None):
 
 QUICK_PAIRS = (("plain_import", "user_class"), ("from_alias", "typing_and_user"), ("docstring_future", "user_class"), ("no_imports", "typing_and_user"),
                ("plain_import", "same_module_new_name"), ("from_alias", "same_name_as_alias"), ("no_imports", "typed_dict"), ("dotted_alias", "user_class"), ("no_imports", "typing_prefixed_module"), ("inside_function_from", "same_name_as_alias"), ("star", "same_module_new_name"),
-               ("tc_in_try", "user_class"), ("tc_in_function", "user_class"))
+               ("tc_in_try", "user_class"), ("tc_in_function", "user_class"), ("typing_existing", "only_known"))
 tape_harness("confine_quick", [("t", 1)], {}, lambda t: confine_body(t, QUICK_PAIRS), globals())
 tape_harness("confine_all", [("t", 2)], {}, lambda t: confine_body(t), globals())
 
